@@ -59,6 +59,36 @@ def gen(tier, rng):
             for st, body in ((200, REPLY_BODIES[5]), (400, REPLY_BODIES[1])):
                 out.append((line(a, REQ_BODIES[0], None, "/token", st, ct2, "cl", body, "none"), "repeated-header"))
                 out.append(("NETFLOW %s %d %s %s" % (a, st, C.topt(ct2), C.tb(body)), "flow-repeated-header"))
+        # literals that are new in the source (gen/srclit.py): statuses, media types, reply and request body sizes
+        from gen import srclit as SL
+        for st in SL.statuses():
+            for ct in CTS:
+                for bi, body in enumerate(REPLY_BODIES[:7]):
+                    i += 1
+                    out.append((line(a, REQ_BODIES[bi % 2], AUTHS[i % 2], PATHS[i % 3], st, ct, FRAMINGS[i % 4], body, "none"), "source-literal/status"))
+            for body in (b"{\"error\":\"invalid_grant\"}", b"{\"access_token\":\"tok\",\"token_type\":\"Bearer\"}", b""):
+                out.append(("NETFLOW %s %d %s %s" % (a, st, C.topt(b"application/json"), C.tb(body)), "source-literal/flow-status"))
+        for w in SL.words():
+            try:
+                wb = w.encode("ascii")
+            except UnicodeEncodeError:
+                continue
+            if not wb or any(c < 0x21 or c > 0x7e for c in wb):
+                continue
+            for ct in (wb, b"application/" + wb, b"application/json; " + wb):
+                for st, body in ((200, REPLY_BODIES[5]), (400, REPLY_BODIES[1])):
+                    i += 1
+                    out.append((line(a, REQ_BODIES[0], None, "/token", st, ct, FRAMINGS[i % 4], body, "none"), "source-literal/content-type"))
+                    out.append(("NETFLOW %s %d %s %s" % (a, st, C.topt(ct), C.tb(body)), "source-literal/flow-content-type"))
+            for st in (200, 400):
+                i += 1
+                out.append((line(a, b"a=" + wb, AUTHS[i % 2], "/token?" + "".join(chr(c) for c in wb if chr(c).isalnum()), st, CTS[1], FRAMINGS[i % 4], wb, "none"), "source-literal/body"))
+        for k in SL.sizes(limit=300000, lo=0):
+            for st in (200, 400):
+                for fr in FRAMINGS:
+                    i += 1
+                    out.append((line(a, REQ_BODIES[0], None, "/token", st, CTS[i % 2], fr, bytes((j * 31 + k) % 256 for j in range(k)), "none"), "source-literal/reply-size"))
+            out.append((line(a, b"a=" + b"b" * max(k - 2, 0), AUTHS[1], "/token", 200, CTS[1], "cl", REPLY_BODIES[5], "none"), "source-literal/request-size"))
         # whole flows: an OAuth error reply is classified as through an in-memory client
         for st, body in ((400, b"{\"error\":\"invalid_grant\"}"), (400, b"{\"error\":\"authorization_pending\"}"), (401, b"{\"error\":\"invalid_client\",\"error_description\":\"x\"}"),
                          (200, b"{\"access_token\":\"tok\",\"token_type\":\"Bearer\",\"expires_in\":3600}"), (500, b""), (503, b"<html>"), (200, b"not json"), (403, b"{\"error\":\"custom\"}")):
@@ -85,6 +115,8 @@ def run(tier, rng, C):
         # delivered verbatim) is evaluated inside the harness as two equalities
         sizes = [(11 * 1024 * 1024, 100), (100, 3 * 1024 * 1024), (16 * 1024 * 1024 + 1, 70000)] if tier == "quick" else \
                 [(11 * 1024 * 1024, 100), (100, 3 * 1024 * 1024), (16 * 1024 * 1024 + 1, 70000), (33 * 1024 * 1024, 1), (10 * 1024 * 1024, 10), (10 * 1024 * 1024 + 1, 10)]
+        from gen import srclit as SL
+        sizes = sizes + [(k, 100) for k in SL.sizes(limit=64 * 1024 * 1024, lo=300001)] + [(100, k) for k in SL.sizes(limit=16 * 1024 * 1024, lo=300001)]
         big = []
         for a in ADAPTERS:
             for k, (rn, qn) in enumerate(sizes):
